@@ -1,14 +1,14 @@
 (* Sx front end of the scheduling model (C14).
 
    request   [[st, role, treq, [pre-history msgs]], [task..], [choice..]]
-     msg    = [ty, id, [own]?, pd]
+     msg    = [ty, id, [own]?, pd, gapfill]
      instr  = [0,msg] send | [1,msg] send-rest | [2] send_test_req | [3,s,ua] _state_set hook | [4] hook
-            | [5,r] role | [6,b,e,[declined..]] resend | [7,saved] restore | [8,e] raise
+            | [5,r] role | [6,b,e,[declined..]] resend | [8,e] raise
      task   = [abort, [instr..]]
    The pre-history is sent by one application task running alone from a fresh session (numbers
    from 1) in state ACTIVE; then state / TestReqID are set and the tasks are scheduled.
    reply     [wire, [[outs, [exc]?, wait]..], rows, sout, nout, st, role, treq, fifo, valid]
-     frame  = [seq, ty, pd, id]   wire oldest first, outs oldest first, wait 0 start 1 hook 2 drain 3 done *)
+     frame  = [seq, ty, pd, id, gapfill]   wire oldest first, outs oldest first, wait 0 start 1 hook 2 drain 3 done *)
 From Coq Require Import ZArith NArith List Bool.
 From AF Require Import Base.Sx Fix.Sched.
 Import ListNotations.
@@ -20,7 +20,7 @@ Definition err_of (z : Z) : err :=
   if z =? 4 then EConn else if z =? 5 then EDupSeq else if z =? 6 then EEncoding else if z =? 3 then EAssert else EDupTag.
 
 Definition sx_outcome (o : outcome) : sx := match o with OOk => SI 0 | OExc e => SI (err_code e) end.
-Definition sx_frame (f : frame) : sx := SL [SI (f_seq f); SI (f_ty f); sx_of_bool (f_pd f); SI (f_id f)].
+Definition sx_frame (f : frame) : sx := SL [SI (f_seq f); SI (f_ty f); sx_of_bool (f_pd f); SI (f_id f); sx_of_bool (f_gf f)].
 Definition sx_wait (w : wait) : sx :=
   SI (match w with WStart => 0 | WHook => 1 | WDrain _ _ => 2 | WDone => 3 end).
 Definition sx_task (t : task) : sx :=
@@ -29,10 +29,10 @@ Definition sx_row (r : Z * frame) : sx := SL [SI (fst r); sx_frame (snd r)].
 
 Definition get_msg (s : sx) : option msg :=
   match s with
-  | SL [SI ty; SI id; own; pd] =>
-      match get_opt get_z own, get_bool pd with
-      | Some own, Some pd => Some (mkMsg ty id own pd)
-      | _, _ => None
+  | SL [SI ty; SI id; own; pd; gf] =>
+      match get_opt get_z own, get_bool pd, get_bool gf with
+      | Some own, Some pd, Some gf => Some (mkMsg ty id own pd gf)
+      | _, _, _ => None
       end
   | _ => None
   end.
@@ -46,7 +46,6 @@ Definition get_instr (s : sx) : option instr :=
   | SL [SI 4] => Some IHook
   | SL [SI 5; SI r] => Some (ISetRole r)
   | SL [SI 6; SI b; SI e; d] => option_map (IResend b e) (get_list get_z d)
-  | SL [SI 7; SI saved] => Some (IRestore saved)
   | SL [SI 8; SI e] => Some (IRaise (err_of e))
   | _ => None
   end.
